@@ -4,8 +4,10 @@ package sio
 
 import (
 	"reflect"
+	"sort"
 	"time"
 
+	mapset "github.com/deckarep/golang-set/v2"
 	eio "github.com/karagenc/socket.io-go/engine.io"
 	eioparser "github.com/karagenc/socket.io-go/engine.io/parser"
 )
@@ -133,4 +135,54 @@ func VerifPendingAcks(s Socket) int {
 		return len(x.acks)
 	}
 	return -1
+}
+
+// ---- connection internals (C05, C06, C12)
+
+type VerifConn struct{ c *serverConn }
+
+func (s *Server) VerifNewConn(sock eio.ServerSocket) (*eio.Callbacks, VerifConn) {
+	c, cb := newServerConn(s, sock, s.parserCreator)
+	return cb, VerifConn{c}
+}
+
+// SocketIDs lists the sockets the connection tracks (no locking; call when nothing else runs).
+func (v VerifConn) SocketIDs() []string {
+	var out []string
+	for id := range v.c.sockets.socketsByID {
+		out = append(out, string(id))
+	}
+	sort.Strings(out)
+	return out
+}
+
+// Namespaces lists the namespaces the connection has joined, by the two indexes it keeps.
+func (v VerifConn) Namespaces() (bySocket, byNsp []string) {
+	for n := range v.c.sockets.socketsByNsp {
+		bySocket = append(bySocket, n)
+	}
+	for n := range v.c.nsps.nsps {
+		byNsp = append(byNsp, n)
+	}
+	sort.Strings(bySocket)
+	sort.Strings(byNsp)
+	return
+}
+
+// VerifAdapterState dumps a namespace adapter's view: every socket id it knows with its rooms.
+func VerifAdapterState(n *Namespace) map[string][]string {
+	out := map[string][]string{}
+	all := n.adapter.Sockets(mapset.NewThreadUnsafeSet[Room]())
+	for _, sid := range all.ToSlice() {
+		rooms, ok := n.adapter.SocketRooms(sid)
+		var rs []string
+		if ok {
+			for _, r := range rooms.ToSlice() {
+				rs = append(rs, string(r))
+			}
+		}
+		sort.Strings(rs)
+		out[string(sid)] = rs
+	}
+	return out
 }
